@@ -2,22 +2,14 @@ package main
 
 import (
 	"fmt"
-	"os"
-	"runtime/pprof"
-	"strconv"
-	"strings"
-	"time"
 
-	"github.com/tsawler/tabula"
+	"github.com/tsawler/tabula/xlsx"
 )
 
 func main() {
-	n, _ := strconv.Atoi(os.Args[1])
-	s := "<html><body><p>x</p>" + strings.Repeat("<"+os.Args[2]+">", n) + "hello" + "</body></html>"
-	f, _ := os.Create("/tmp/cpu.prof")
-	pprof.StartCPUProfile(f)
-	t := time.Now()
-	_, _, err := tabula.FromHTMLString(s).Text()
-	fmt.Println("Text", n, time.Since(t), err)
-	pprof.StopCPUProfile()
+	for _, s := range []string{"", "1A", "A", "A0", "#REF!", ":C3", "A1:", "A1:#REF!", "#REF!:C3", " B2:C3", "B:C3", "2B:C3", "A1:B2:C3", "a1:b2", "A1", "$A$1:$B$2", "A-1:B2", "A1:B-2", "A1 :B2"} {
+		c1, r1, c2, r2, err := xlsx.ParseRangeRef(s)
+		c, r, e2 := xlsx.ParseCellRef(s)
+		fmt.Printf("%-12q range=(%d,%d,%d,%d) err=%v | cell=(%d,%d) err=%v\n", s, c1, r1, c2, r2, err != nil, c, r, e2 != nil)
+	}
 }
